@@ -32,6 +32,8 @@ def run(chk, repo):
     chk.attempt(y1, chk, repo)
     chk.attempt(dtype_tables_agree, chk, repo)
     chk.attempt(y3, chk, repo)
+    chk.rule("C12-Y8", "in the inferred output schema every attribute is a scalar / string / (nested) list or tuple of those, and no variable holds dicts or (value, attrs) pairs", 400)
+    chk.attempt(y8, chk, repo)
     from .c02 import column_delegation
     chk.rule("C12-Y7", "declared shape == loaded shape: every return of Array.__getitem__ applies the caller's column indexers", 1)
     chk.attempt(column_delegation, chk, repo, "C12-Y7")
@@ -117,3 +119,65 @@ def y3(chk, repo):
                         f"{name} is a nested Struct of {len(core.fields) if core.kind == 'struct' else '?'} fields and the per-line merge has no flattening stage: "
                         f"it surfaces as an object array of dicts holding (value, attrs) pairs",
                         key=f"{key}:{name}:nested", sample={"record": key, "field": name} if nested else None)
+
+
+def y8(chk, repo):
+    """walk the output trees obtained by shape inference: attribute values and variable data must be plain"""
+    from ..records import Layouts
+    from ..shapes import Choice, Const, DictS, Leaf, ListLit, ListOf, Obj, Top, TupS
+    from ..shapes_rules import pipelines
+    L = Layouts(repo)
+    P = pipelines(repo, L)
+    n = [0]
+
+    def plain(v, allow_seq=True):
+        if isinstance(v, (Leaf, Const)):
+            return True
+        if isinstance(v, Choice):
+            return all(plain(a, allow_seq) for a in v.alts)
+        if allow_seq and isinstance(v, (ListLit, TupS)):
+            return all(plain(x) for x in v.elts)
+        if allow_seq and isinstance(v, ListOf):
+            return plain(v.elem)
+        return False
+
+    def walk(v, path, pipe):
+        if isinstance(v, Choice):
+            for a in v.alts:
+                walk(a, path, pipe)
+            return
+        if isinstance(v, Obj) and v.cls == "Group":
+            attrs = v.fields.get("attrs")
+            if isinstance(attrs, DictS):
+                for k, x in attrs.items.items():
+                    n[0] += 1
+                    if k == "coordinates":
+                        continue
+                    chk.require(plain(x), "C12-Y8", f"{pipe}:{path}/@{k}", "plain attribute", f"attribute {path}/@{k} is {type(x).__name__} {repr(x)[:80]}: not a scalar/string/list - it cannot be serialised or shown", key=f"{pipe}:{path}/@{k}:attr")
+            data = v.fields.get("data")
+            if isinstance(data, DictS):
+                for k, x in data.items.items():
+                    walk(x, f"{path}/{k}", pipe)
+            return
+        if isinstance(v, Obj) and v.cls == "Variable":
+            n[0] += 1
+            d = v.fields.get("data")
+            ok = plain(d)
+            if not ok:
+                # known finding D8 is reported by C12-Y3 with its own key; here only new cases outside the line records
+                if pipe.startswith("lines:"):
+                    return
+            chk.require(ok, "C12-Y8", f"{pipe}:{path}", "variable data is an array of scalars", f"variable {path} holds {repr(d)[:100]}: dicts / (value, attrs) pairs surface as data", key=f"{pipe}:{path}:data")
+            attrs = v.fields.get("attrs")
+            if isinstance(attrs, DictS):
+                for k, x in attrs.items.items():
+                    n[0] += 1
+                    chk.require(plain(x), "C12-Y8", f"{pipe}:{path}@{k}", "plain attribute", f"attribute {path}@{k} is {repr(x)[:80]}", key=f"{pipe}:{path}@{k}:attr")
+            return
+        if isinstance(v, DictS):
+            for k, x in v.items.items():
+                n[0] += 1
+                chk.require(plain(x), "C12-Y8", f"{pipe}:{path}/@{k}", "plain attribute", f"attribute {path}/@{k} is {repr(x)[:80]}", key=f"{pipe}:{path}/@{k}:attr")
+
+    for pipe, v in P.run().items():
+        walk(v, "", pipe)
